@@ -37,6 +37,9 @@ def alphabet(name):
         import math
         a = 1.0
         return [(a, a, True), (a + 1e-9, a, True), (a, a + 1e-9, True), (math.nextafter(a, 2.0), math.nextafter(a, 2.0), True), (a + 2e-9, a + 2e-9, False)]
+    if name == "TINY":    # costs below machine epsilon apart in absolute terms: still strictly ordered
+        import math
+        return [(0.0, 0.0, True), (1e-17, 1e-17, True), (2e-17, 5e-324, True), (0.1, 0.0, True), (math.nextafter(0.1, 1.0), 1e-17, True)]
     if name == "S6":
         return [(0.0, 0.0, True), (0.0, 1.0, True), (1.0, 0.0, True), (1.0, 1.0, True), (2.0, 0.0, True), (0.0, 2.0, True)]
     if name == "V5x2":
@@ -45,6 +48,8 @@ def alphabet(name):
 
 
 _sel = []
+import collections
+_KEEP = collections.deque(maxlen=6)      # the last populations stay referenced, as they do inside an algorithm run
 
 
 def selector():
@@ -69,6 +74,7 @@ def sort_population(costs, order=None):
         ind.costs_signed = list(costs[pos])
         pop[pos] = ind
     selector().fast_nondominated_sorting(pop)
+    _KEEP.append(pop)
     return pop
 
 
@@ -170,6 +176,8 @@ def run(tier, seed):
     for n in (2, 3, 4):
         add("NEAR", n, 0)
     add("NEAR", 5, 1)
+    for n in (2, 3, 4):
+        add("TINY", n, 0)
     add("Q4", 6, 1)
     add("Q4", 7, 2)
     add("L3F", 7, 2)
